@@ -4,11 +4,13 @@ import (
 	"context"
 	"encoding/json"
 	"fmt"
+	"github.com/NethermindEth/juno/verifh/lib/chain"
 	"math/big"
 	"math/rand/v2"
 	"os"
 	"sort"
 	"strings"
+	"time"
 
 	"github.com/NethermindEth/juno/blockchain"
 	"github.com/NethermindEth/juno/blockchain/networks"
@@ -36,6 +38,24 @@ type world struct {
 	Contracts map[string]*cstate  // key = address decimal
 	Addr      map[string]*big.Int // address decimal -> integer
 	Classes   map[string]lib.KV   // class hash decimal -> (class hash, casm hash)
+}
+
+func (w *world) clone() *world {
+	c := newWorld()
+	for a, cs := range w.Contracts {
+		st := map[string]lib.KV{}
+		for k, v := range cs.Storage {
+			st[k] = v
+		}
+		c.Contracts[a] = &cstate{Class: cs.Class, Nonce: cs.Nonce, Storage: st}
+	}
+	for a, v := range w.Addr {
+		c.Addr[a] = v
+	}
+	for a, v := range w.Classes {
+		c.Classes[a] = v
+	}
+	return c
 }
 
 func newWorld() *world {
@@ -679,6 +699,96 @@ func verifyResponse(q rpcRequest, res *jResult, w *world, blocks []headInfo, cou
 	return "", ""
 }
 
+const classProofOvertaken = "rpc:getStorageProof-overtaken-by-a-block-commit:response-does-not-verify-for-the-block-it-names"
+
+// overtakenRequest: see the call site. commit() stores block n; it is always done when this returns.
+func overtakenRequest(rp *reporter, idx int, rng *rand.Rand, rec *chain.RecDB, servers map[string]*jsonrpc.Server, backend string,
+	wPrev, wNext *world, blocks []headInfo, commit func() error, next headInfo, nb *core.Block,
+	addrPool, slotPool, classPool []*big.Int, reqID *int,
+) error {
+	r := rp.r
+	n := len(blocks) // number of the block being committed
+	q := genRequest(rng, wPrev, addrPool, slotPool, classPool)
+	q.Version = []string{"v0_10", "v0_9", "v0_8"}[rng.IntN(3)]
+	switch rng.IntN(3) {
+	case 0:
+		q.BlockID, q.BlockNum = `"latest"`, -1
+	case 1:
+		q.BlockID, q.BlockNum = fmt.Sprintf(`{"block_number":%d}`, n-1), int64(n-1)
+	default:
+		q.BlockID, q.BlockNum = fmt.Sprintf(`{"block_hash":"%s"}`, blocks[n-1].hash.String()), int64(n-1)
+	}
+	q.MustServe = true
+	*reqID++
+	req := q.json(*reqID)
+	var raw []byte
+	var herr, cerr error
+	ask := func() { raw, _, herr = servers[q.Version].HandleReader(context.Background(), strings.NewReader(req)) }
+	// position: among the reads this very request performs
+	nreads := 0
+	rec.SetOnRead(func([]byte) { nreads++ })
+	if rp.guard(idx, "rpc:"+q.Version+":getStorageProof", func() any { return rpcWitness{Backend: backend, Version: q.Version, Request: req} }, ask) {
+		rec.SetOnRead(nil)
+		return commit()
+	}
+	rec.SetOnRead(nil)
+	if nreads == 0 {
+		return commit()
+	}
+	k := 1 + rng.IntN(nreads)
+	var fired bool
+	if rp.guard(idx, "rpc:"+q.Version+":getStorageProof:overtaken", func() any { return rpcWitness{Backend: backend, Version: q.Version, Request: req} }, func() {
+		fired, _ = rec.Overtake(k, 300*time.Millisecond, ask, func() { cerr = commit() })
+	}) {
+		return cerr
+	}
+	if !fired {
+		r.Count("rpc.overtaken.request_finished_before_the_chosen_read", 1)
+		return commit()
+	}
+	if cerr != nil {
+		return cerr
+	}
+	r.Eval(1)
+	r.Count("rpc.overtaken.requests_overtaken_by_the_next_block", 1)
+	wit := func(what string) rpcWitness {
+		resp := string(raw)
+		if len(resp) > 6000 {
+			resp = resp[:6000] + "..."
+		}
+		return rpcWitness{Backend: backend, Version: q.Version, Height: uint64(n - 1), Request: req, Response: resp,
+			What: fmt.Sprintf("%s; block %d was committed right after the request's database read #%d of %d", what, n, k, nreads), State: wPrev.dump()}
+	}
+	var resp jResponse
+	if herr != nil || json.Unmarshal(raw, &resp) != nil || (resp.Result == nil) == (resp.Error == nil) {
+		rp.viol("rpc:overtaken:malformed-response", idx, fmt.Sprintf("%s/%s: unusable response to %s: %v", backend, q.Version, req, herr), wit("unusable response"))
+		return nil
+	}
+	if resp.Error != nil {
+		rp.viol(fmt.Sprintf("rpc:overtaken:head-request-refused:code%d", resp.Error.Code), idx,
+			fmt.Sprintf("%s/%s: request for %s answered with error %d %s", backend, q.Version, q.BlockID, resp.Error.Code, resp.Error.Message), wit("refused"))
+		return nil
+	}
+	next.hash, next.root = *nb.Hash, *nb.GlobalStateRoot
+	w, bl := wPrev, blocks
+	if resp.Result.GlobalRoots != nil {
+		if bh, err := hexFelt(resp.Result.GlobalRoots.BlockHash); err == nil && bh.Equal(nb.Hash) {
+			w, bl = wNext, append(append([]headInfo{}, blocks...), next)
+			r.Count("rpc.overtaken.answered_for_the_new_head", 1)
+		}
+	}
+	class, what := verifyResponse(q, resp.Result, w, bl, r.Count)
+	if class != "" {
+		// one call site, one cause (the handler reads head state, height, header hash and the tries
+		// in separate database reads): every inconsistency of an overtaken response is one finding
+		r.Count("rpc.overtaken.symptom:"+class, 1)
+		rp.viol(classProofOvertaken, idx, fmt.Sprintf("%s/%s, request for %s overtaken by block %d after its read #%d of %d: %s", backend, q.Version, q.BlockID, n, k, nreads, what), wit(what))
+		return nil
+	}
+	r.Count("rpc.overtaken.responses_fully_verified", 1)
+	return nil
+}
+
 func checkChain(rp *reporter, idx int, rng *rand.Rand) {
 	r := rp.r
 	cc := chainCase{NewState: rng.IntN(2) == 0, Version: []string{"0.13.2", "0.14.0", "0.14.0"}[rng.IntN(3)], Blocks: 2 + rng.IntN(5)}
@@ -689,7 +799,8 @@ func checkChain(rp *reporter, idx int, rng *rand.Rand) {
 	addrPool := lib.GenKeys(rng, height, 10)
 	slotPool := lib.GenKeys(rng, height, 24)
 	classPool := lib.GenKeys(rng, height, 8)
-	bc := blockchain.New(memory.New(), &networks.Sepolia, blockchain.WithNewState(cc.NewState))
+	rec := chain.NewRecDB(memory.New())
+	bc := blockchain.New(rec, &networks.Sepolia, blockchain.WithNewState(cc.NewState))
 	logger := log.NewNopZapLogger()
 	h := rpc.New(bc, &sync.NoopSynchronizer{}, nil, "v", logger, &networks.Sepolia)
 	servers := map[string]*jsonrpc.Server{}
@@ -714,10 +825,21 @@ func checkChain(rp *reporter, idx int, rng *rand.Rand) {
 	parent, oldRoot := &felt.Zero, &felt.Zero
 	reqID := 0
 	for n := 0; n < cc.Blocks; n++ {
+		wPrev := w.clone()
 		sd, newClasses := genDiff(rng, w, n, addrPool, slotPool, classPool)
 		b := mkBlock(uint64(n), parent, cc.Version)
 		su := &core.StateUpdate{OldRoot: oldRoot, StateDiff: sd}
-		if err := bc.Finalise(b, su, newClasses, nil); err != nil {
+		var err error
+		if n > 0 && rng.IntN(2) == 0 {
+			// directed interleaving: a proof request for the current head (block n-1) has done k
+			// database reads when block n is committed, before its next read. The response names the
+			// block it is for; whichever of the two it is, everything in it must verify for THAT block.
+			err = overtakenRequest(rp, idx, rng, rec, servers, backend, wPrev, w, blocks, func() error { return bc.Finalise(b, su, newClasses, nil) },
+				headInfo{num: uint64(n), version: cc.Version}, b, addrPool, slotPool, classPool, &reqID)
+		} else {
+			err = bc.Finalise(b, su, newClasses, nil)
+		}
+		if err != nil {
 			r.Inconclusive("chain-build-failed")
 			r.Note(fmt.Sprintf("case %d: Finalise(block %d) on %s failed: %v", idx, n, backend, err))
 			return
